@@ -29,23 +29,40 @@ ASSUMPTIONS = [
     "toJson() exposes all content, including empty bins left behind",
 ]
 
-SINGLE_PATH = ("Bin", "SparselyBin", "SparselyBin", "CentrallyBin", "IrregularlyBin", "Categorize", "Categorize", "Select") + gen.LEAF_KINDS
+SINGLE_PATH = ("Bin", "SparselyBin", "SparselyBin", "CentrallyBin", "IrregularlyBin", "Categorize", "Categorize", "Select") + gen.LEAF_KINDS + ("Count", "Count", "Count")
 MODES = ("raise", "wrong-a", "wrong-b", "wrong-c")
 
 
 def strategy(tier):
     thorough = tier == "thorough"
-    opts = gen.TreeOpts(max_depth=4 if thorough else 3, kinds=SINGLE_PATH, flavours=("lambda",), affine=True, bag_ranges=("N", "S", "N2"), max_bins=6)
+    opts = gen.TreeOpts(max_depth=4 if thorough else 3, kinds=SINGLE_PATH, flavours=("lambda",), affine=True, bag_ranges=("N", "S", "N2"), max_bins=6, flow_odds=2)
 
     @st.composite
     def cases(draw):
         spec = draw(gen.tree_specs(opts))
+        if draw(st.booleans()):
+            # flow slots are full aggregators with quantities of their own: give half of the plain ones a quantity
+            for _, node in list(walk_spec(spec)):
+                for slot in ("underflow", "overflow", "nanflow"):
+                    if node.get(slot) == {"k": "Count"} and draw(st.booleans()):
+                        node[slot] = draw(gen.leaf_specs(opts, ("Sum", "Average", "Minimize", "Bag")))
         stream, _ = draw(gen.streams(spec, max_rows=40 if thorough else 20, focus=draw(st.booleans())))
         rows = []
         for r, w in stream:
             r = dict(r)
             if draw(st.integers(0, 2)) == 0:
-                r["fail_at"] = draw(st.sampled_from((0, 1, 1, 2, 2, 3)[: 2 * opts.max_depth - 2]))
+                targets = [(p, s_) for p, s_ in walk_spec(spec) if "q" in s_]
+                if targets and draw(st.booleans()):
+                    # aim the record at a uniformly chosen quantity-bearing node (flow slots included) and fail there
+                    tp, _ = draw(st.sampled_from(targets))
+                    aim(spec, r, tp)
+                    r["fail_at"] = len(tp)
+                else:
+                    n_q = route_len(spec, r, w)
+                    if n_q and draw(st.integers(0, 7)) != 0:
+                        r["fail_at"] = draw(st.integers(0, n_q - 1))
+                    else:
+                        r["fail_at"] = draw(st.sampled_from((0, 1, 1, 2, 2, 3)[: 2 * opts.max_depth - 2]))
                 r["fail_mode"] = draw(st.sampled_from(MODES))
             rows.append([r, w])
             if draw(st.integers(0, 9)) == 0:
@@ -79,6 +96,52 @@ def qhook(path, spec, q):
         return _base(datum)
 
     return quantity
+
+
+def aim(spec, row, path):
+    """Best effort: change the columns of `row` so that it is routed along `path` (slot names from the root)."""
+    node = spec
+    for slot in path:
+        q = node.get("q")
+        k = node["k"]
+        if q and q["t"] in ("num", "gt"):
+            col, a, b = q["col"], q.get("a", 1.0), q.get("b", 0.0)
+
+            def put(v, col=col, a=a, b=b, q=q):
+                row[col] = v if q["t"] == "gt" or a == 0 else (v - b) / a
+
+            if k in ("Select", "Fraction"):
+                if q["t"] == "gt":
+                    row[col] = q["thr"] + 1.0
+                else:
+                    row[col] = 1.0
+            elif slot == "nanflow":
+                row[col] = float("nan")
+            elif slot == "underflow":
+                put(node["low"] - 1.0)
+            elif slot == "overflow":
+                put(node["high"] + 1.0)
+            elif k == "Bin":
+                cur = eval_q(q, row)
+                if not (isinstance(cur, float) and node["low"] <= cur < node["high"]):
+                    put((node["low"] + node["high"]) / 2.0)
+            else:
+                cur = eval_q(q, row)
+                if not isinstance(cur, float) or cur != cur or abs(cur) == float("inf"):
+                    put(0.5)
+        node = node[slot]
+
+
+def route_len(spec, row, w):
+    """Number of quantity functions evaluated on the way of this record from the root to its leaf."""
+    probe = dict(row)
+    n = 0
+    for d in range(12):
+        probe["fail_at"] = d
+        if not reached(spec, probe, w)[0]:
+            break
+        n = d + 1
+    return n
 
 
 def reached(spec, row, w, depth=0):
